@@ -393,6 +393,9 @@ class CallMixin:
     # ---- builtins
     def bi_len(self, n, st):
         v = self.ev(n.args[0], st)
+        if isinstance(v.t, T.Opt) and not v.t.reflike:
+            self.raise_if(st, v.t.is_none(v.z), 'TypeError', 'len of None')
+            v = SV(v.t.t, v.t.val(v.z))
         if isinstance(v.t, T._Str):
             return SV(T.Int, z3.Length(v.z))
         if isinstance(v.t, T.Tuple):
